@@ -77,6 +77,7 @@ def read_first_model(text):
     """
     out = []
     models = 0
+    seg = 0
     for raw in text.splitlines():
         line = raw.strip("\r\n")
         key = line.strip()[0:6].strip() if line.strip() else ""
@@ -85,26 +86,33 @@ def read_first_model(text):
             if models > 1:
                 break
             continue
+        if key == "TER":
+            seg += 1
         if key in ("ATOM", "HETATM"):
             s = line.strip()
             try:
-                out.append(parse_atom_line(s))
+                out.append(dict(parse_atom_line(s), seg=seg))
             except (ValueError, IndexError):
                 out.append({"unparsed": s})
     return out
 
 
 def first_altloc(atoms):
-    """One atom per (chain, resi, icode, name) in contiguous residue order: first listed wins."""
+    """One atom per (chain, resi, icode, name): first listed wins.  Identity is scoped to the contiguous block of
+    records sharing (chain, resi, icode) - two chains with blank ids and equal numbering are different residues."""
     seen = set()
     out = []
+    block = None
     for a in atoms:
         if "unparsed" in a:
             out.append(a)
             continue
-        k = (a["chain"], a["resi"], a["icode"], a["name"])
-        if k in seen:
+        b = (a["chain"], a["resi"], a["icode"], a.get("seg"))
+        if b != block:
+            block = b
+            seen = set()
+        if a["name"] in seen:
             continue
-        seen.add(k)
+        seen.add(a["name"])
         out.append(a)
     return out
